@@ -248,4 +248,7 @@ def run(ctx):
     r20_3(ctx)
     r20_4(ctx)
     r20_5(ctx)
+    from . import c10, c16
+    c10.r10_4_units(ctx, modules=("pop3_client", "mbox"))
+    c16.r16_1(ctx)
     ctx.note("R20.6 (sizes from the shared renderer) is decided by C16 R16.1")
